@@ -808,6 +808,12 @@ theorem frame_to_handler (P : Prims) (d d' : Dir) (conn rest : Bytes) (m : Msg) 
 example : handleMsg (fun _ _ => true) m0 = .ok (.processed 3 [0xAA, 0xBB]) := by decide
 example : (frame_to_handler P0 d0 d0' w0 [] m0 (fun _ _ => true) (by decide) _ (by decide : handleMsg (fun _ _ => true) m0 = .ok (.processed 3 [0xAA, 0xBB]))).1 = rfl := rfl
 
+/-- payload consumers are total: accept or reject with an error, never a panic (the obligation the harness checks on
+    the real `queue.DeliverHeaders` with wire-decoded batches). -/
+theorem deliver_total (pending maps : Bool) :
+    (deliverSpec pending maps).isPanic = false ∧ ((deliverSpec pending maps).isOk = true ↔ (pending = true ∧ maps = true)) := by
+  cases pending <;> cases maps <;> decide
+
 /-! ## Identity validation (the claimed static key of an RLPx initiator / of a discovered node) -/
 
 /-- `responder_identity_validated`: for every validation predicate, ECDH and recovery function and every auth message,
